@@ -511,6 +511,8 @@ def run(ctx):
     stride = 40
     tasks += [("plot_task", dict(start=s, stride=stride)) for s in range(stride)]
     ctx.pmap(MOD, "task", [dict(t, tier=ctx.tier, fn=f) for f, t in tasks])
+    for hs in (("4", "7") if ctx.quick else ("1", "2", "4", "7", "123", "4242")):  # one slice of the plots and the 2x2 images again in interpreters with other hash seeds
+        ctx.pmap(MOD, "task", [dict(start=3, stride=stride, tier=ctx.tier, fn="plot_task"), dict(shape=(2, 2), start=0, stride=1, tier=ctx.tier, fn="img_task")], hashseed=hs)
     ctx.coverage.update(
         image_builder=dict(graph_spaces_complete={f"{r}x{c}": R.n_graphs(r, c) for r, c in [(1, 1), (1, 2), (2, 1), (2, 2), (2, 3), (3, 2), (3, 3)]
                                                   + ([] if quick else [(2, 4), (4, 2)])},
